@@ -117,6 +117,21 @@ def _opaque_eval(ctx, eqn, *ins):
     prm["name"] = name
 
     def rec(level, ops):
+        if level < 0 and name in ODD_IN_LAST_OPERAND and interp.is_obj(ops[-1]) and _leading_sign(ops[-1]) < 0:
+            # solve(A, -b) = -solve(A, b): evaluate (and memoise) the call on the sign-canonical right-hand side, so
+            # that a specification and an implementation that differ only in the sign convention of a residual
+            # share the same solution symbols
+            neg = np.empty(ops[-1].shape, dtype=object)
+            for ix in np.ndindex(*neg.shape):
+                neg[ix] = -ops[-1][ix]
+            outs = rec(level, list(ops[:-1]) + [neg])
+            flipped = []
+            for o in outs:
+                f = np.empty(np.shape(o), dtype=object)
+                for ix in np.ndindex(*f.shape):
+                    f[ix] = -o[ix]
+                flipped.append(f)
+            return flipped
         if level < 0:
             key = _memo_key(name, prm, ops)
             hit = _MEMO.get(key) if key is not None else None
@@ -152,6 +167,17 @@ def _opaque_eval(ctx, eqn, *ins):
 
 
 interp.OPAQUE["vc_opaque"] = _opaque_eval
+
+ODD_IN_LAST_OPERAND = {"solve_triu", "solve_tril", "solve_lu"}
+
+
+def _leading_sign(arr):
+    """Sign of the canonical leading coefficient of the first non-zero entry (deterministic)."""
+    for x in arr.reshape(-1):
+        if isinstance(x, V) and not x.p.is_zero():
+            m = min(x.p.t, key=lambda mono: repr(mono))
+            return 1 if x.p.t[m] > 0 else -1
+    return 1
 
 _MEMO: dict = {}
 
@@ -391,6 +417,43 @@ def k_ghost_inverse(ctx, prm, A):
     return [X]
 
 
+def k_ghost_parent(ctx, prm, A):
+    """Ghost (specification only): the full output of the kernel call from which the block A was cut
+    (A must literally be the leading block of that output).  Lets a specification talk about 'the triangular
+    factor R_Y was taken from' without repeating how the code assembled the kernel's argument."""
+    kernel, shape = prm["static"]
+    A = A if interp.is_obj(A) else interp.to_obj(A)
+    sid = None
+    for x in A.reshape(-1):
+        if isinstance(x, V) and not x.p.is_zero():
+            st = x.p.single_term()
+            if st is None or len(st[0]) != 1 or st[0][0][1] != 1 or st[1] != 1:
+                raise interp.Unsupported("ghost_parent: the block is not a literal kernel output")
+            sid = st[0][0][0]
+            break
+    if sid is None:
+        raise interp.Unsupported("ghost_parent: the block is identically zero")
+    for rec in CALL_LOG:
+        if rec["name"] != kernel:
+            continue
+        sids = np.asarray(rec["out_sids"][0])
+        if sid in sids and tuple(sids.shape) == tuple(shape):
+            full = np.empty(sids.shape, dtype=object)
+            for ix in np.ndindex(*sids.shape):
+                full[ix] = P.sym_v(int(sids[ix])) if sids[ix] >= 0 else P.ZERO
+            blk = full[tuple(slice(0, k) for k in A.shape)]
+            for a, b in zip(A.reshape(-1), blk.reshape(-1)):
+                if (a - b).p.is_zero() is False:
+                    raise interp.Unsupported("ghost_parent: the block is not the leading block of the kernel output")
+            return [full]
+    raise interp.Unsupported(f"ghost_parent: no {kernel} call of shape {shape} produced this block")
+
+
+def ghost_parent(A, kernel, shape):
+    """Symbolic mode only (callers provide their own native fallback)."""
+    return bind_opaque("ghost_parent", [A], [jax.ShapeDtypeStruct(tuple(shape), jnp.result_type(float))], static=(kernel, tuple(shape)))[0]
+
+
 def ghost_inverse(A):
     if not MODE.symbolic:
         return jnp.linalg.inv(A)
@@ -450,6 +513,7 @@ BASE_HANDLERS.update(
         "lstsq_svd": k_lstsq_svd,
         "lstsq_z": k_lstsq_z,
         "ghost_inverse": k_ghost_inverse,
+        "ghost_parent": k_ghost_parent,
         "hypot": k_hypot,
         "prng_key": k_prng_key,
         "split": k_split,
@@ -545,6 +609,95 @@ def make_uf(name, in_shapes, out_shape, native=None, time_arg=True):
     f.dt = dt_raw
     f.raw = f_raw
     return f
+
+
+class uf_interpolant:
+    """Context manager: replaces the native stand-in of an uninterpreted function by a smooth function that takes
+    prescribed values (and first derivatives) at finitely many points (a solver counter-model), so that the
+    counterexample can be replayed on the real code with a concrete function."""
+
+    def __init__(self, table):
+        self.table = table  # list of dicts: part, name, args (list of arrays), out (array)
+        self.saved = {}
+
+    def __enter__(self):
+        by_name = {}
+        for e in self.table:
+            by_name.setdefault(e["name"], []).append(e)
+        for name, entries in by_name.items():
+            orig = UF_NATIVE.get(("uf", name))
+            if orig is None:
+                continue
+            vals = [e for e in entries if e["part"] == "uf"]
+            jacs = [e for e in entries if e["part"].startswith("ufjac") or e["part"] == "ufdt"]
+            pts = []  # distinct points (flattened concatenation of all arguments)
+            def flat(args):
+                return np.concatenate([np.ravel(np.asarray(a, dtype=np.float64)) for a in args])
+            for e in vals + jacs:
+                z = flat(e["args"])
+                if not any(np.allclose(z, q, rtol=0, atol=1e-12) for q in pts):
+                    pts.append(z)
+            if len(pts) > 1:
+                dmin = min(np.linalg.norm(a - b) for i, a in enumerate(pts) for b in pts[i + 1 :])
+            else:
+                dmin = 1.0
+            width = max(dmin, 1e-9) / 40.0  # cross-talk between neighbouring points: exp(-800)
+            shapes = [np.shape(a) for a in (vals + jacs)[0]["args"]]
+            sizes = [int(np.prod(sh)) if sh else 1 for sh in shapes]
+            nx = len(shapes)
+            corrections = []
+            for z in pts:
+                args = _split(z, shapes, sizes)
+                base = np.asarray(orig(*[jnp.asarray(a) for a in args]))
+                dv = np.zeros_like(base)
+                for e in vals:
+                    if np.allclose(flat(e["args"]), z, rtol=0, atol=1e-12):
+                        dv = np.asarray(e["out"], dtype=np.float64).reshape(base.shape) - base
+                dJ = [np.zeros(base.shape + sh) for sh in shapes]
+                for e in jacs:
+                    if np.allclose(flat(e["args"]), z, rtol=0, atol=1e-12):
+                        k = nx - 1 if e["part"] == "ufdt" else int(e["part"][5:])
+                        Jb = np.asarray(jax.jacfwd(orig, argnums=k)(*[jnp.asarray(a) for a in args]))
+                        dJ[k] = np.asarray(e["out"], dtype=np.float64).reshape(Jb.shape) - Jb
+                corrections.append((z, dv, dJ))
+
+            def new(*args, _orig=orig, _corr=corrections, _shapes=shapes, _w=width):
+                zz = jnp.concatenate([jnp.ravel(jnp.asarray(a, dtype=jnp.float64)) for a in args])
+                out = _orig(*args)
+                for z, dv, dJ in _corr:
+                    bump = jnp.exp(-jnp.sum((zz - z) ** 2) / (2 * _w * _w))
+                    lin = dv
+                    off = 0
+                    for k, sh in enumerate(_shapes):
+                        n = int(np.prod(sh)) if sh else 1
+                        delta = (zz[off : off + n] - z[off : off + n]).reshape(sh)
+                        lin = lin + (jnp.tensordot(jnp.asarray(dJ[k]), delta, axes=len(sh)) if sh else jnp.asarray(dJ[k]) * delta)
+                        off += n
+                    out = out + bump * lin
+                return out
+
+            for key in [("uf", name)] + [(f"ufjac{k}", name) for k in range(nx)] + [("ufdt", name)]:
+                if key in UF_NATIVE:
+                    self.saved[key] = UF_NATIVE[key]
+            UF_NATIVE[("uf", name)] = new
+            has_dt = ("ufdt", name) in self.saved
+            for k in range(nx - 1 if has_dt else nx):
+                if (f"ufjac{k}", name) in self.saved:
+                    UF_NATIVE[(f"ufjac{k}", name)] = jax.jacfwd(new, argnums=k)
+            if has_dt:
+                UF_NATIVE[("ufdt", name)] = jax.jacfwd(new, argnums=nx - 1)
+        return self
+
+    def __exit__(self, *a):
+        UF_NATIVE.update(self.saved)
+
+
+def _split(z, shapes, sizes):
+    out, off = [], 0
+    for sh, n in zip(shapes, sizes):
+        out.append(z[off : off + n].reshape(sh))
+        off += n
+    return out
 
 
 # ---------------------------------------------------------------------------------------
